@@ -32,7 +32,12 @@ func genValueSpec(r *Rng) []float64 {
 		n = r.Range(2, 12)
 	}
 	out := make([]float64, n)
+	extreme := r.Chance(12) // a specification that contains an extreme of the type as a bound
 	for i := range out {
+		if extreme && (i == 0 || r.Chance(20)) {
+			out[i] = []float64{math.MaxFloat64, -math.MaxFloat64}[r.Intn(2)]
+			continue
+		}
 		switch r.Intn(4) {
 		case 0:
 			out[i] = c03ValuePool[r.Intn(len(c03ValuePool))]
@@ -63,7 +68,12 @@ func genDurSpec(r *Rng) []int64 {
 		n = r.Range(2, 12)
 	}
 	out := make([]int64, n)
+	extreme := r.Chance(12)
 	for i := range out {
+		if extreme && (i == 0 || r.Chance(20)) {
+			out[i] = []int64{math.MaxInt64, math.MinInt64}[r.Intn(2)]
+			continue
+		}
 		switch r.Intn(4) {
 		case 0:
 			out[i] = c03DurPool[r.Intn(len(c03DurPool))]
@@ -202,7 +212,12 @@ func c03ValueCase(c *Ctx, r *Rng) {
 	// (b) cached path: exact bucket index per sample
 	rc := newRecCached()
 	root, closer := tally.VerifNewRootScope(tally.ScopeOptions{CachedReporter: rc, OmitCardinalityMetrics: true, DefaultBuckets: vb}, 0, 1)
-	defer closer.Close()
+	abandon := false // after a recovered panic inside a pass the registry's locks are still held: Close would never return
+	defer func() {
+		if !abandon {
+			catch(func() { closer.Close() })
+		}
+	}()
 	var h tally.Histogram
 	if useNil {
 		h = root.Histogram("h", nil)
@@ -224,7 +239,11 @@ func c03ValueCase(c *Ctx, r *Rng) {
 			res = "panic"
 		} else {
 			h.RecordDuration(time.Duration(r.U64())) // a value histogram ignores durations
-			tally.VerifReportOnce(root)
+			if pp, pv := catch(func() { tally.VerifReportOnce(root) }); pp {
+				c.Cov.Fail(Failure{Kind: "violated", Clause: "no-panic", Signature: "report-pass-panics-value-histogram", Line: "spec v " + f64List(spec) + " sample " + f64hex(v), Reply: fmt.Sprint(pv)})
+				abandon = true
+				return
+			}
 			cnt := 0
 			for _, e := range rc.log.Take() {
 				if e.Kind == "samples" {
@@ -274,7 +293,7 @@ func c03ValueCase(c *Ctx, r *Rng) {
 	// (c) whole-history conservation through the plain reporter, tuples
 	rp := newRec()
 	root2, closer2 := tally.VerifNewRootScope(tally.ScopeOptions{Reporter: rp, OmitCardinalityMetrics: true}, 0, 1)
-	defer closer2.Close()
+	defer func() { catch(func() { closer2.Close() }) }()
 	h2 := root2.Histogram("h", vb)
 	var fin []float64
 	for _, v := range samples {
@@ -334,7 +353,12 @@ func c03DurationCase(c *Ctx, r *Rng) {
 		opts.DefaultBuckets = db
 	}
 	root, closer := tally.VerifNewRootScope(opts, 0, 1)
-	defer closer.Close()
+	abandon := false // after a recovered panic inside a pass the registry's locks are still held: Close would never return
+	defer func() {
+		if !abandon {
+			catch(func() { closer.Close() })
+		}
+	}()
 	var h tally.Histogram
 	if useNil && len(spec) > 0 {
 		h = root.Histogram("h", nil)
@@ -356,7 +380,11 @@ func c03DurationCase(c *Ctx, r *Rng) {
 			res = "panic"
 		} else {
 			h.RecordValue(float64(v)) // a duration histogram ignores values
-			tally.VerifReportOnce(root)
+			if pp, pv := catch(func() { tally.VerifReportOnce(root) }); pp {
+				c.Cov.Fail(Failure{Kind: "violated", Clause: "no-panic", Signature: "report-pass-panics-duration-histogram", Line: "spec d " + i64List(spec) + fmt.Sprintf(" sample %d", v), Reply: fmt.Sprint(pv)})
+				abandon = true
+				return
+			}
 			cnt := 0
 			for _, e := range rc.log.Take() {
 				if e.Kind == "samples" {
@@ -386,7 +414,7 @@ func c03DurationCase(c *Ctx, r *Rng) {
 
 	rp := newRec()
 	root2, closer2 := tally.VerifNewRootScope(tally.ScopeOptions{Reporter: rp, OmitCardinalityMetrics: true}, 0, 1)
-	defer closer2.Close()
+	defer func() { catch(func() { closer2.Close() }) }()
 	h2 := root2.Histogram("h", db)
 	for _, v := range samples {
 		h2.RecordDuration(time.Duration(v))
